@@ -1,20 +1,25 @@
 #!/bin/sh
 # Applies every seeded change (/verif/seeded/<id>/patch.diff) to a scratch copy of /repo's working tree and runs the
-# property's check against the copy. usage: tools/seedtest.sh [id-substring]    (prints CAUGHT / MISSED per seed)
+# property's check against the copy. usage: tools/seedtest.sh [id-substring]    (prints CAUGHT / MISSED per seed;
+# SEEDTEST_JOBS=n at a time, default 4)
 cd /verif || exit 2
-fail=0
-for d in seeded/*/; do
+one() {
+  d="$1"
   id=$(basename "$d")
-  case "$id" in *"$1"*) ;; *) continue;; esac
   prop=$(python3 -c "import json,sys; print(json.load(open('$d/meta.json'))['property'])")
   D=$(mktemp -d /tmp/govc-seed-XXXXXX)
   rsync -a --exclude .git /repo/ "$D/repo/"
   mkdir -p "$D/verif/contracts"; cp -r contracts/trusted "$D/verif/contracts/"; cp known_findings.json "$D/verif/"; cp -r bounded "$D/verif/" 2>/dev/null
-  if ! (cd "$D/repo" && patch -p1 -s < "/verif/$d/patch.diff"); then echo "SEED $id: patch does not apply to the current tree"; fail=1; rm -rf "$D"; continue; fi
-  if ! (cd "$D/repo" && go build ./... 2>/dev/null); then echo "SEED $id: does not build"; fail=1; rm -rf "$D"; continue; fi
+  if ! (cd "$D/repo" && patch -p1 -s < "/verif/$d/patch.diff"); then echo "SEED $id: patch does not apply to the current tree"; rm -rf "$D"; return 1; fi
+  if ! (cd "$D/repo" && go build ./... 2>/dev/null); then echo "SEED $id: does not build"; rm -rf "$D"; return 1; fi
   out=$(GOVC_REPO="$D/repo" GOVC_VERIF="$D/verif" bin/govc check -prop "$prop" 2>&1)
   v=$(echo "$out" | grep "^VIOLATION property=$prop " | sed 's/.*obligation=\([^ ]*\).*/\1/' | tr '\n' ' ')
-  if [ -n "$v" ]; then echo "SEED $id ($prop): CAUGHT by $v"; else echo "SEED $id ($prop): MISSED"; fail=1; fi
   rm -rf "$D"
-done
-exit $fail
+  if [ -n "$v" ]; then echo "SEED $id ($prop): CAUGHT by $v"; return 0; else echo "SEED $id ($prop): MISSED"; return 1; fi
+}
+if [ "$1" = "--one" ]; then one "$2"; exit $?; fi
+list=$(for d in seeded/*/; do id=$(basename "$d"); case "$id" in *"$1"*) echo "seeded/$id";; esac; done)
+out=$(echo "$list" | xargs -P "${SEEDTEST_JOBS:-4}" -n 1 sh tools/seedtest.sh --one)
+echo "$out" | sort
+bad=$(echo "$out" | grep -c "MISSED\|does not")
+[ "$bad" -eq 0 ]
